@@ -11,7 +11,12 @@ COQ_IMPORTS = SR.COQ_IMPORTS
 COQ_PREAMBLE = SR.PREAMBLE
 SHARD = 4
 FORM = SR.FORM_TEXT % 'calculate_ground_state_local_singlesite / calculate_ground_state_local_twosite'
-TRUSTED = SR.TRUSTED
+TRUSTED = SR.TRUSTED + [
+    'hand-written Gallina model of the local eigensolver of minimization.py AS REPAIRED (numiter = min(numiter, Astart.size) before eigh_krylov): '
+    'keig_lanczos_cap = _minimize_local_energy (Proofs/LinkSolversCap.v: keig_lanczos of Proofs/LinkSolvers.v run with Nat.min numiter (site_size A) iterations, '
+    'site_size A = length A * sdl A * sdr A = Astart.size for a one-site tensor (d, Dl, Dr) and for the merged two-site tensor (d*d, Dl, Dr)); keig_lanczos (no cap) '
+    'models the code before the repair and its theorems are kept; the sweep-level trace correspondence wraps _minimize_local_energy from outside and is blind to the cap '
+    '(it records the caller\'s numiter), the Krylov routine underneath is tied to krylov.py by the C14 / C15 correspondence']
 PARTIAL = ('proved (Properties/C10.v, all closed under the global context): C10_dmrg1_whole_run -- for single-site DMRG, every L >= 2, every number of sweeps and '
            'every bond profile, over Cx F for an arbitrary ordered field F: the returned state is normalised, the last reported energy equals <psi|H|psi> of '
            'the returned state, the reported energies are non-increasing, none exceeds the energy of the normalised start state, each is >= lam for every lam '
@@ -37,6 +42,17 @@ PARTIAL = ('proved (Properties/C10.v, all closed under the global context): C10_
            'merged start tensor from norm one; per entry: C10_eig2_entry_from_krylov; lock-step induction over the two-site schedule (C10_dmrg2_lapack_to_ritz); non-vacuity: '
            'the L = 3 rational instance run with the REAL eigensolver (numiter = 1, exact rational split and QR oracles), all hypotheses but H >= lam checked by kernel '
            'evaluation and the theorem applied to it (C10_dmrg2_whole_run_lapack_nonvacuous, C10_dmrg2_whole_run_lapack_example). '
+           'REPAIRED SOLVER (cap): the LINK theorems above are about keig_lanczos = _minimize_local_energy WITHOUT the cap (the code before the repair; kept, still true). '
+           'The current code starts with numiter = min(numiter, Astart.size); its model is keig_lanczos_cap = keig_lanczos run with min(numiter, site_size A) iterations '
+           '(Proofs/LinkSolversCap.v), and the end-to-end theorems are re-established for it: C10_keig_cap_from_krylov (one call meets the Ritz contract; the primitives\' '
+           'contracts are required on the calls of the CAPPED Lanczos run; 1 <= min(numiter, size) follows from 1 <= numiter and the non-zero start tensor, which forces '
+           'd*Dl*Dr >= 1 -- C10_nonzero_tensor_has_entries; a zero-size tensor makes the code raise in lanczos_iteration and the model return its error value), '
+           'C10_dmrg1_lapack_to_ritz_cap, C10_dmrg1_whole_run_lapack_cap, C10_eig2_entry_cap_from_krylov, C10_dmrg2_lapack_to_ritz_cap, C10_dmrg2_whole_run_lapack_cap '
+           '(same hypotheses and five conclusions as the uncapped versions, trace contracts lrtr_cap_ok / lrtr2_cap_ok = the uncapped ones with the capped count on every '
+           'EIG / EIG2 entry; Proofs/LinkRunDMRGCap.v redoes the lock-step inductions generically in the eigensolver), C10_keig_cap_is_keig_when_small (no cap, same solver); '
+           'non-vacuity with a cap that bites (numiter = 25 > Astart.size): one call on the size-2 problem (C10_keig_cap_from_krylov_nonvacuous, min(25, 2) = 2), whole '
+           'single-site and two-site runs on two spins with H = Z(x)Z, every eigensolver entry of size 2 resp. 4 < 25, first call running exactly the capped 2 iterations, '
+           'ground energy -1 reached from E0 = -7/25 (C10_dmrg1_whole_run_lapack_cap_nonvacuous / _example, C10_dmrg2_whole_run_lapack_cap_nonvacuous / _example). '
            'NOT proved: reaching the exact ground energy on a complete manifold (spectral theory), splits with tol > 0, that the '
            'FLOATING-POINT primitives (LAPACK QR / eigh_tridiagonal / norm, hence the floating-point Lanczos) meet their exact contracts (measured), that the floating-point SVD split meets the exact-split contract (at tol = 0 this is what '
            'C03_merge_split_id and C12_block_svd_spec prove of the split model in exact arithmetic; here only its consequences are measured), rounding (measured by prop()); '
